@@ -1037,7 +1037,8 @@ pub fn gen_dec_valid(rng: &mut Rng, limit: bool) -> DecCase {
 /// frames).  `hostile`: the tail is damaged (cut off, bad flag) - the messages before it must still arrive.
 pub fn gen_dec_big(rng: &mut Rng, hostile: bool) -> DecCase {
     let big = *rng.pick(&[60_000usize, 65_530, 65_531, 65_535, 65_536, 65_537, 65_541, 70_000, 131_072, 300_000, 1 << 20]);
-    let fill = rng.below(256) as u8;
+    // (a first byte 0xff is the raw codec's "undecodable message" marker: keep clear of it)
+    let fill = rng.below(250) as u8;
     let mut payload = vec![fill; big];
     payload[0] = fill.wrapping_add(1);
     payload[big - 1] = fill.wrapping_add(2);
@@ -1109,6 +1110,98 @@ pub fn gen_dec_big(rng: &mut Rng, hostile: bool) -> DecCase {
         _ => Some(8 << 20),
     };
     DecCase { dir, enc: None, max, buf_size: *rng.pick(&BUF_SIZES), evs, stream: bytes, extra_polls: rng.below(4) as usize }
+}
+
+/// A decoder case with MANY tiny messages buffered at once (seed C07g: a "cooperative yielding" budget of 128
+/// messages per body poll that is only refilled by the next body poll - with 129 complete messages in the read
+/// buffer the stream answers `Pending` for ever): 100 … 1000 frames of 0-3 bytes in one chunk, in two, or
+/// spread; `hostile`: the tail is damaged, the messages before it and the one error must still arrive.
+pub fn gen_dec_many(rng: &mut Rng, hostile: bool) -> DecCase {
+    let k = *rng.pick(&[100usize, 127, 128, 129, 130, 200, 257, 1000]);
+    let mut bytes = Vec::new();
+    let mut starts = Vec::new();
+    for i in 0..k {
+        starts.push(bytes.len());
+        let l = rng.below(4) as usize;
+        let m: Vec<u8> = (0..l).map(|j| (i + j) as u8 & 0x7f).collect();
+        bytes.extend(frame(0, &m));
+    }
+    if hostile {
+        match rng.below(3) {
+            0 => bytes.extend([7u8, 0, 0, 0, 0]),
+            1 => bytes.extend([0u8, 0, 0, 0, 9, 1, 2]),
+            _ => {
+                let at = starts[rng.range(k as u64 / 2, k as u64 - 1) as usize];
+                bytes[at] = 9;
+            }
+        }
+    }
+    let n = bytes.len();
+    let mut cuts: Vec<usize> = match rng.below(4) {
+        0 => vec![],
+        1 => vec![starts[k / 2]],
+        2 => vec![starts[k - 1] + 2],
+        _ => (0..3).map(|_| rng.below(n as u64) as usize).collect(),
+    };
+    cuts.retain(|c| *c > 0 && *c < n);
+    cuts.sort();
+    cuts.dedup();
+    let mut chunks = Vec::new();
+    let mut prev = 0;
+    for c in cuts {
+        chunks.push(bytes[prev..c].to_vec());
+        prev = c;
+    }
+    chunks.push(bytes[prev..].to_vec());
+    let pend = rng.chance(1, 2);
+    let mut evs = events_from_chunks(rng, chunks, pend);
+    let dir = if rng.chance(1, 2) { "req".to_string() } else { "resp200".to_string() };
+    if dir == "resp200" && rng.chance(1, 2) {
+        evs.push("t0".into());
+    }
+    DecCase { dir, enc: None, max: None, buf_size: *rng.pick(&BUF_SIZES), evs, stream: bytes, extra_polls: rng.below(4) as usize }
+}
+
+/// A decoder case with COMPRESSIBLE messages and a limit between the compressed and the uncompressed size
+/// (seed C01g: a "decompression bomb" guard that read at most `limit` decompressed bytes handed the decoder a
+/// message cut to exactly `limit` bytes): the receive limit applies to the payload ON THE WIRE, so such a message is
+/// accepted and must arrive whole.  `huge`: one message of 5 MiB under the default limit of 4 MiB.
+pub fn gen_dec_compressible(rng: &mut Rng, e: CompressionEncoding, huge: bool) -> DecCase {
+    let mut bytes = Vec::new();
+    let mut starts = Vec::new();
+    let mut max = None;
+    let n = if huge { 1 } else { rng.range(1, 3) };
+    for i in 0..n {
+        let len = if huge { 5 * 1024 * 1024 } else { *rng.pick(&[300usize, 1000, 5000, 20000, 70000]) };
+        let fill = rng.below(250) as u8;
+        let mut m = vec![fill; len];
+        m[len / 2] = fill.wrapping_add(1);
+        m[len - 1] = fill.wrapping_add(2);
+        let z = oracle_compress(e, &m);
+        if i == 0 && !huge {
+            // wire length <= limit < uncompressed length (when the message compressed at all)
+            max = Some(match rng.below(3) {
+                0 => z.len(),
+                1 => z.len() + (len - z.len().min(len)) / 2,
+                _ => len.saturating_sub(1).max(z.len()),
+            });
+        }
+        starts.push(bytes.len());
+        bytes.extend(frame(1, &z));
+        if rng.chance(1, 2) {
+            starts.push(bytes.len());
+            bytes.extend(frame(0, &gen_msg(rng, 10)));
+        }
+    }
+    // later messages may be over the limit on the wire: fine, the case is then about the refusal too
+    let style = if huge { 0 } else { *rng.pick(&[0u64, 2, 3]) };
+    let chunks = chunkings(rng, &bytes, &starts, style);
+    let mut evs = events_from_chunks(rng, chunks, !huge);
+    let dir = if rng.chance(1, 2) { "req".to_string() } else { "resp200".to_string() };
+    if dir == "resp200" {
+        evs.push("t0".into());
+    }
+    DecCase { dir, enc: Some(e), max, buf_size: *rng.pick(&[5usize, 1024, 8192]), evs, stream: bytes, extra_polls: 2 }
 }
 
 /// Hostile input: mutations of a valid stream, truncations, raw random bytes, injected body
